@@ -585,6 +585,85 @@ impl C12 {
             }
         }
         rep.count("set_next_headers_ok");
+        // the packet builder links the chain itself (`PacketBuilder::ip(..).write*(.., n, payload)`):
+        // from a header set whose links are all stale, every output door has to emit the chain linked
+        // to n in RFC 8200 order - the very octets written above
+        {
+            let stale = IpNumber(*rng.pick(&[59u8, 17, 6, 253, n.wrapping_add(1)].iter().filter(|v| !EXT_NUMBERS.contains(v) && **v != n).copied().collect::<Vec<u8>>()));
+            let mut unl = exts2.clone();
+            if let Some(h) = unl.hop_by_hop_options.as_mut() {
+                h.next_header = stale;
+            }
+            if let Some(h) = unl.destination_options.as_mut() {
+                h.next_header = stale;
+            }
+            if let Some(r) = unl.routing.as_mut() {
+                r.routing.next_header = stale;
+                if let Some(f) = r.final_destination_options.as_mut() {
+                    f.next_header = stale;
+                }
+            }
+            if let Some(h) = unl.fragment.as_mut() {
+                h.next_header = stale;
+            }
+            if let Some(h) = unl.auth.as_mut() {
+                h.next_header = stale;
+            }
+            let mut base = Ipv6Header::default();
+            base.next_header = stale;
+            base.hop_limit = 9;
+            let ih = IpHeaders::Ipv6(base, unl);
+            let pn = rng.range(0, 9) as usize;
+            let pl = rng.bytes(pn);
+            let total = 40 + out.len() + pl.len();
+            for door in ["write", "write_to_vec", "write_to_slice"] {
+                rep.evals += 1;
+                let ih = ih.clone();
+                let r = shell::guarded(|| -> Result<Vec<u8>, String> {
+                    let b = PacketBuilder::ip(ih);
+                    match door {
+                        "write" => {
+                            let mut v = Vec::new();
+                            b.write(&mut v, IpNumber(n), &pl).map_err(|e| format!("{:?}", e))?;
+                            Ok(v)
+                        }
+                        "write_to_vec" => {
+                            let mut v = Vec::new();
+                            b.write_to_vec(&mut v, IpNumber(n), &pl).map_err(|e| format!("{:?}", e))?;
+                            Ok(v)
+                        }
+                        _ => {
+                            let mut v = vec![0u8; total + 3];
+                            let k = b.write_to_slice(&mut v, IpNumber(n), &pl).map_err(|e| format!("{:?}", e))?;
+                            v.truncate(k);
+                            Ok(v)
+                        }
+                    }
+                });
+                match r {
+                    Err(p) => {
+                        rep.violation(&format!("panic|PacketBuilder::ip|{}|{}", door, p.location()), format!("{}: {}", ctx, p.0), &[]);
+                        return;
+                    }
+                    Ok(Err(e)) => {
+                        rep.violation(&format!("builder|{}|rejects_linkable_chain", door), format!("{} (all links stale = {}): {}", ctx, stale.0, e), &out);
+                        return;
+                    }
+                    Ok(Ok(v)) => {
+                        let ok = v.len() == total && v[6] == first.0 && v[40..40 + out.len()] == out[..] && v[40 + out.len()..] == pl[..] && u16::from_be_bytes([v[4], v[5]]) as usize == out.len() + pl.len();
+                        if !ok {
+                            rep.violation(
+                                &format!("builder|{}|chain_not_linked_to_n", door),
+                                format!("{} (all links stale = {}): PacketBuilder::ip(..).{} emitted a chain that is not the RFC 8200 chain ending in {}", ctx, stale.0, door, n),
+                                &v,
+                            );
+                            return;
+                        }
+                        rep.count("builder_door.links_stale_chain_to_n");
+                    }
+                }
+            }
+        }
         // the wrappers, started from a chain that is already consistent and already ends in n but
         // is linked with fragment and authentication header swapped: linking must still produce
         // RFC 8200 order
@@ -764,6 +843,79 @@ impl C12 {
         let f = e4.set_next_headers(IpNumber(n));
         if e4.next_header(f).ok().map(|v| v.0) != Some(n) {
             rep.violation("ipv4|set_next_headers", format!("{}: chain does not walk to n", ctx), &[]);
+        }
+        // builder door, IPv4: a base header with options and a stale protocol field; the announced
+        // size, the three output doors and the link to n
+        {
+            let mut base = Ipv4Header::new(0, 64, IpNumber(if n == 17 { 6 } else { 17 }), [1, 2, 3, 4], [5, 6, 7, 8]).unwrap();
+            let ow = rng.below(11) as usize;
+            base.options = (&vec![0x01u8; 4 * ow][..]).try_into().unwrap();
+            let mut unl = e4.clone();
+            if let Some(a) = unl.auth.as_mut() {
+                a.next_header = IpNumber(59);
+            }
+            let pn = rng.range(0, 9) as usize;
+            let pl = rng.bytes(pn);
+            let ext_len = e4.header_len();
+            let total = 20 + 4 * ow + ext_len + pl.len();
+            let ih = IpHeaders::Ipv4(base, unl);
+            let announced = shell::guarded(|| PacketBuilder::ip(ih.clone()).size(pl.len()));
+            for door in ["write", "write_to_vec", "write_to_slice"] {
+                rep.evals += 1;
+                let ih = ih.clone();
+                let r = shell::guarded(|| -> Result<Vec<u8>, String> {
+                    let b = PacketBuilder::ip(ih);
+                    match door {
+                        "write" => {
+                            let mut v = Vec::new();
+                            b.write(&mut v, IpNumber(n), &pl).map_err(|e| format!("{:?}", e))?;
+                            Ok(v)
+                        }
+                        "write_to_vec" => {
+                            let mut v = Vec::new();
+                            b.write_to_vec(&mut v, IpNumber(n), &pl).map_err(|e| format!("{:?}", e))?;
+                            Ok(v)
+                        }
+                        _ => {
+                            // a slice of exactly the real size
+                            let mut v = vec![0u8; total];
+                            let k = b.write_to_slice(&mut v, IpNumber(n), &pl).map_err(|e| format!("{:?}", e))?;
+                            v.truncate(k);
+                            Ok(v)
+                        }
+                    }
+                });
+                match (r, &announced) {
+                    (Err(p), _) => {
+                        rep.violation(&format!("panic|PacketBuilder::ip(ipv4)|{}|{}", door, p.location()), format!("{}: {}", ctx, p.0), &[]);
+                        return;
+                    }
+                    (Ok(Err(e)), _) => {
+                        rep.violation(&format!("builder|ipv4|{}|rejects_linkable_chain", door), format!("{} ({} option words): {}", ctx, ow, e), &[]);
+                        return;
+                    }
+                    (Ok(Ok(v)), a) => {
+                        let hl = 20 + 4 * ow;
+                        let last = if e4.auth.is_some() { v.get(hl).copied() } else { v.get(9).copied() };
+                        let ok = v.len() == total
+                            && a.as_ref().ok() == Some(&total)
+                            && v[0] == 0x40 | (5 + ow as u8)
+                            && u16::from_be_bytes([v[2], v[3]]) as usize == total
+                            && v[9] == if e4.auth.is_some() { 51 } else { n }
+                            && last == Some(n)
+                            && v[total - pl.len()..] == pl[..];
+                        if !ok {
+                            rep.violation(
+                                &format!("builder|ipv4|{}|announced_size_or_link", door),
+                                format!("{} ({} option words, payload {}): size() = {:?}, {} emitted {} octets, real size {}; protocol {} last link {:?} (n = {})", ctx, ow, pl.len(), a.as_ref().ok(), door, v.len(), total, v[9], last, n),
+                                &v,
+                            );
+                            return;
+                        }
+                        rep.count("builder_door.ipv4_size_and_link");
+                    }
+                }
+            }
         }
         // wrappers: ether type of the IP version
         let c = Conf {
